@@ -236,6 +236,19 @@ def run_shard(spec):
                 record("convert:unsupported")
                 if rc4 == 0 and not err4 and False:
                     pass
+            # unsupported --convert value together with a valid input AND an output directory: still an unsupported option
+            outdir_u = Path(workdir) / f"uout_{r}"
+            for opt in (["--convert", "CSV"], ["-c", "EPJSON"]):
+                rcu, erru, _ = run_cli([str(fpath), str(outdir_u)] + opt, workdir)
+                if rcu is None:
+                    res["skipped_timeouts"] += 1
+                    continue
+                res["runs"] += 1
+                record("convert:unsupported-with-outdir")
+                res["nontrivial"].append([bname, "unsupported-convert-with-outdir", opt[1]])
+                if rcu == 0:
+                    bad("unsupported-convert-exits-zero:with-output-directory", f"{bname}: {' '.join(opt)} with an output directory exits 0 (outputs: {[f for f in OUTPUTS if (outdir_u / f).exists()]})", {**case, "mode": " ".join(opt) + " with outdir"})
+            shutil.rmtree(outdir_u, ignore_errors=True)
             # --convert IDF on something that is not a summary: no output can be produced
             rc5, err5, _ = run_cli(["--convert", "IDF", str(fpath)], workdir)
             res["runs"] += 1
